@@ -570,3 +570,47 @@ theorem runH_length (ops : List HOp) : ∀ (h : Heap), h.length ≤ (runH h ops)
       exact Nat.le_trans (stepH_frame h op h' out hs).1 (ih h')
 
 end HdVerif.Coding
+
+namespace HdVerif.Coding
+open HdVerif HdVerif.Gen
+
+/-! #### `copy.copy` -/
+
+/-- no step re-points an existing object -/
+theorem sstep_objs (s : OStore) (op : SOp) (a : Nat) (ha : a < s.objs.length) : (sstep s op).objs[a]? = s.objs[a]? := by
+  cases op with
+  | shallow o =>
+    simp only [sstep]
+    split
+    · rfl
+    · simp [List.getElem?_append_left ha]
+  | deep o =>
+    simp only [sstep]
+    split
+    · rfl
+    · simp [List.getElem?_append_left ha]
+  | set o k v =>
+    simp only [sstep]
+    split <;> rfl
+  | del o k =>
+    simp only [sstep]
+    split <;> rfl
+
+theorem sstep_objs_length (s : OStore) (op : SOp) : s.objs.length ≤ (sstep s op).objs.length := by
+  cases op with
+  | shallow o => simp only [sstep]; split <;> simp
+  | deep o => simp only [sstep]; split <;> simp
+  | set o k v => simp only [sstep]; split <;> simp
+  | del o k => simp only [sstep]; split <;> simp
+
+theorem srun_objs (ops : List SOp) : ∀ (s : OStore) (a : Nat), a < s.objs.length → (srun s ops).objs[a]? = s.objs[a]? := by
+  induction ops with
+  | nil => intro s a _; rfl
+  | cons op rest ih =>
+    intro s a ha
+    simp only [srun, List.foldl_cons]
+    have := ih (sstep s op) a (Nat.lt_of_lt_of_le ha (sstep_objs_length s op))
+    simp only [srun] at this
+    rw [this, sstep_objs s op a ha]
+
+end HdVerif.Coding
